@@ -242,6 +242,23 @@ func c06onlySchemeSticky(a, b c06norm) bool {
 	return strip(a) == strip(b)
 }
 
+// c06onlyOAuthLookup: the two normal forms differ only in the rules an oauth declaration renders (the intercept call, its
+// redirect / header rules, or the unconditional deny of a dangling declaration)
+func c06onlyOAuthLookup(a, b c06norm) bool {
+	strip := func(n c06norm) string {
+		var out []string
+		for _, l := range strings.Split(n.text(), "\n") {
+			if strings.Contains(l, "lua.auth-intercept") || strings.Contains(l, "auth_response") ||
+				strings.Contains(l, "/start?rd=") || strings.TrimSpace(l) == "http-request deny" {
+				continue
+			}
+			out = append(out, l)
+		}
+		return strings.Join(out, "\n")
+	}
+	return a.text() != b.text() && strip(a) == strip(b)
+}
+
 // debugging aid: HV_C06_MIN="<kind> <ops...>" shrinks a failing case (same class of difference) and prints the
 // minimal case with the two normal forms side by side (only the differing lines)
 func c06min(c *ctx) bool {
@@ -326,6 +343,12 @@ func c06case(c *ctx, kind string, toks []string, k, procs int) {
 		}
 		c.stat("run_error", 1)
 		return
+	}
+	if strings.HasPrefix(verdict, "diff:fresh-backend:") && c06onlyOAuthLookup(base, other) {
+		// known finding (C01 and C06): which backend authenticates an `oauth` path is looked up among the paths OTHER
+		// ingresses publish in the namespace (updater.findBackend; "TODO track" in the code): when the oauth2-proxy path
+		// appears, moves or goes away in a later partial sync the protected backend is not rebuilt
+		verdict = "diff:fresh-oauthlookup:oauth-proxy-path-published-later-not-tracked"
 	}
 	if strings.HasPrefix(verdict, "diff:fresh-servers:_auth_backend") && c06onlySchemeSticky(base, other) {
 		// known finding (C01 and C06): an auth backend is shared by every auth-url naming the same ip:port, whatever the
@@ -466,6 +489,9 @@ func runC06(c *ctx) {
 }
 
 var c06corpus = []string{
+	// KNOWN FINDING order-dependent-config-fresh-oauthlookup: the oauth2-proxy path of the namespace is published by a
+	// LATER partial sync: the protected backend stays denied, a fresh controller intercepts through d_web_8080
+	"hist cm~external-has-lua=true svc+d/app!http:80:8080!- svc+d/web!http:80:8080!- ing+d/i2@0!haproxy,-!oauth=oauth2_proxy;oauth-uri-prefix=/a!b.local>/:ImplementationSpecific:app:http!-!- sync ing+d/j2@3!haproxy,-!-!a.local>/a/:Prefix:web:80!-!- sync",
 	// auth-proxy range exhausted (two ports, three auth targets): WHICH path is left without a proxy (denied) must not
 	// depend on the order the backends map is visited (repaired by 85c4ee0)
 	"world cm~external-has-lua=true;auth-proxy=_front_auth:14415-14416 svc+d/app!http:80:8080!- ep~d/app!10.0.1.1:r:app-1 svc+d/api!http:80:8080!- ep~d/api!10.0.2.1:r:api-1 svc+d/web!http:80:8080!- ep~d/web!10.0.3.1:r:web-1 ing+d/i1@1!haproxy,-!auth-url=https://10.9.9.7:8443/auth!a.local>/:Prefix:app:80!-!- ing+d/i2@2!haproxy,-!auth-url=http://10.9.9.8:8000/auth!b.local>/:Prefix:api:80!-!- ing+d/i3@3!haproxy,-!auth-url=http://10.9.9.9:8000/auth!c.local>/:Prefix:web:80!-!-",
